@@ -36,6 +36,8 @@ struct World {
     saw_failover: bool,
     panicked: bool,
     quiet_views: bool,
+    snapshot: Option<MetaStore>,
+    recover_floor: Option<u64>,
 }
 
 fn code(e: &MetaStoreError) -> String {
@@ -68,7 +70,7 @@ fn parse_ranges(s: &str) -> Option<Vec<Range>> {
 impl World {
     fn new(s: Streams) -> Self {
         World { store: MetaStore::new(false), s, case: 0, ops: vec![], last_epochs: BTreeMap::new(), max_served: BTreeMap::new(),
-                last_global: 0, saw_migration: false, saw_failover: false, panicked: false, quiet_views: false }
+                last_global: 0, saw_migration: false, saw_failover: false, panicked: false, quiet_views: false, snapshot: None, recover_floor: None }
     }
     fn new_case(&mut self) {
         self.flush_case_stats();
@@ -81,6 +83,8 @@ impl World {
         self.saw_migration = false;
         self.saw_failover = false;
         self.panicked = false;
+        self.snapshot = None;
+        self.recover_floor = None;
     }
     fn flush_case_stats(&mut self) {
         if self.case > 0 && self.saw_migration && self.saw_failover {
@@ -209,7 +213,28 @@ impl World {
     fn step(&mut self, line: &str) {
         let toks: Vec<&str> = line.split(' ').collect();
         let before_store = self.store.clone();
-        let (op, obs) = self.exec(&toks);
+        let (op, obs) = match toks.as_slice() {
+            ["snap"] => { self.snapshot = Some(self.store.clone()); ("snap".to_string(), format!("snap g={}", self.store.global_epoch)) }
+            ["restart", _] if self.snapshot.is_some() => {
+                // a broker process restarts from the snapshot (real `MetaStore::restore` into a fresh store), then runs
+                // epoch recovery through the real `MemoryStorage::recover_epoch` with what `MemBrokerService::recover_epoch`
+                // would pass: (largest epoch on any proxy) + 1. The largest proxy epoch is the largest epoch ever served.
+                let e = self.max_served.values().cloned().max().unwrap_or(0);
+                let mut fresh = MetaStore::new(false);
+                let r = fresh.restore(self.snapshot.clone().expect("snapshot"));
+                if r.is_err() { ("restart 0".to_string(), "bad-op".to_string()) } else {
+                    let shared = std::sync::Arc::new(parking_lot::RwLock::new(fresh));
+                    let storage = undermoon::broker::verif_export::storage::MemoryStorage::new(shared.clone());
+                    use undermoon::broker::verif_export::storage::MetaStorage;
+                    let _ = futures::executor::block_on(storage.recover_epoch(e + 1));
+                    self.store = shared.read().clone();
+                    self.recover_floor = Some(e);
+                    self.s.stats.count("restart.from_snapshot");
+                    (format!("restart {}", e + 1), format!("OK g={}", self.store.global_epoch))
+                }
+            }
+            _ => self.exec(&toks),
+        };
         let kind = toks[0].to_string();
         self.s.stats.count(&format!("op.{}", kind));
         let outcome = obs.split(' ').take(2).collect::<Vec<_>>().join("_");
@@ -312,13 +337,18 @@ impl World {
             }
             if l == 0 {
                 // ---- C04: epochs ----------------------------------------------------------------
-                if store.global_epoch < self.last_global { self.fail(format!("C04: global epoch went back {} -> {}", self.last_global, store.global_epoch), ""); }
+                if kind != "restart" && store.global_epoch < self.last_global { self.fail(format!("C04: global epoch went back {} -> {}", self.last_global, store.global_epoch), ""); }
                 self.last_global = store.global_epoch;
                 let mut now: BTreeMap<String, (u64, String)> = BTreeMap::new();
                 for (a, p) in v.proxies.iter() {
                     let e = p["epoch"].as_u64().unwrap_or(0);
                     let mut content = p.clone(); content["epoch"] = Value::Null;
                     now.insert(a.clone(), (e, content.to_string()));
+                }
+                if let Some(fl) = self.recover_floor {
+                    for (a, (e, _)) in now.iter() { if *e <= fl {
+                        self.fail(format!("C13: after recovery with largest proxy epoch {}, {} is served epoch {} (after {})", fl, a, e, kind), "");
+                    } }
                 }
                 for (a, (e, content)) in now.iter() {
                     if let Some((pe, pc)) = self.last_epochs.get(a) {
@@ -512,8 +542,8 @@ impl Gen {
                 92..=93 => { if !free.is_empty() { return format!("remove_proxy {}", rng.pick(&free)); } else if !proxies.is_empty() { return format!("remove_proxy {}", rng.pick(&proxies)); } }
                 94..=96 => { if !proxies.is_empty() { let a = if rng.chance(3, 4) && !free.is_empty() { rng.pick(&free).clone() } else { rng.pick(&proxies).clone() }; return format!("add_failure {} r{} 0", a, rng.below(3)); } }
                 97 => { return format!("bump_all {}", (store.global_epoch as i64 + rng.range(-2, 20)).max(0)); }
-                98 => { return format!("recover {}", (store.global_epoch as i64 + rng.range(-5, 50)).max(0)); }
-                _ => { if !clusters.is_empty() { return format!("scale_out_num {} {}", rng.pick(&clusters), 4 * rng.range(1, 6)); } }
+                98 => { return match rng.below(3) { 0 => "snap".to_string(), 1 => "restart 0".to_string(), _ => format!("recover {}", (store.global_epoch as i64 + rng.range(-5, 50)).max(0)) }; }
+                _ => { if rng.chance(1, 3) { return "snap".to_string(); } if rng.chance(1, 2) { return "restart 0".to_string(); } if !clusters.is_empty() { return format!("scale_out_num {} {}", rng.pick(&clusters), 4 * rng.range(1, 6)); } }
             }
         }
         "add_proxy p0:1 n:1 n:2 h0".into()
